@@ -41,7 +41,7 @@ var (
 	tailReq = "GET /next HTTP/1.1\r\nHost: h\r\n\r\n"
 	tailRes = "HTTP/1.1 200 OK\r\nContent-Length: 0\r\n\r\n"
 	// replacement bytes for a framing CR / LF (the other byte of the pair is always tried too)
-	replQuick    = []byte{'X', ' ', '0', ':'}
+	replQuick    = []byte{'X', ' ', '\t', 0, '0', ':'}
 	replThorough = []byte{'X', ' ', '\t', 0, '0', ':', ';', ',', 'a', '=', '"', 0x0b, 0x0c, 0x7f, 0x80, 0xff}
 )
 
